@@ -366,7 +366,9 @@ META = {
                   "document A<r>items</r>B in which every inner tag name is symbolic, so the handlers' own set-membership "
                   "and equality tests split the cases; z3 decides feasibility of every split and the oracle (A and B once, "
                   "in order, no hidden marker) is checked on every feasible path; counterexamples are rendered to HTML and "
-                  "replayed through the real parser and public entry points.",
+                  "replayed through the real parser and public entry points.  A second kernel drives whole documents (upper-case names, "
+                  "attributes, text directly next to the removed element, every construct that can be left open at the end of "
+                  "the input) through feed()/close() of all four carriers (read_html, read_mhtml, MSG HTML body, EPUB chapter).",
     "level_note": "Trusted: the callback lowering of html.parser (checked by replay through feed()). Bounds: <= 2 (3) inner "
                   "items, tag names up to 6 chars, one removable element per document.",
     "technique": "symbolic execution of the HTMLParser handler methods on bounded symbolic tag strings (symrun CharStr), "
